@@ -47,6 +47,9 @@ def materialise(desc):
     elif fam == 'tri_plus_two':
         sc = scenes.tri_plus_two_heights_scene(rng)
         prm = {'call': {'MIN_SEP_VALS': [40.0, 40.0], 'LAYERING_PRMS': {'min_okta_to_split': 0}}, 'glob': {}}
+    elif fam == 'quantised':
+        sc = scenes.quantised_scene(rng, nce=k.get('nce', 1))
+        prm = {'call': base_prms(rng, sc, dict(k, bins=0)), 'glob': {}}
     elif fam == 'manysplit':
         sc = scenes.many_split_scene(rng)
         prm = {'call': copy.deepcopy(scenes.PRMS_MANY_SPLIT), 'glob': {}}
